@@ -60,3 +60,259 @@ Proof. intros. unfold dp_retry_exhausted. apply Z.ltb_lt. Qed.
 Example C08_new_is_first : forall a o i q d,
   pe_fcb (periph_new a o i q d) = FcbFirst /\ pe_state (periph_new a o i q d) = PsOffline.
 Proof. intros. split; reflexivity. Qed.
+
+(* ====================================================================================================
+   C08 (phase 2): HISTORY theorems.
+
+   Histories (Proofs/DpHistory.v): `history pa a o tr` = tr is the wire trace of ANY sequence of calls
+   (transmit_telegram in any operating state, receive_reply with ANY telegram -- accepted, well-formed but
+   rejected, SC, wrong SAPs, wrong length --, time-out / abandoned request, request_diagnostics(), pi_q
+   writes, in any order) on a freshly constructed peripheral with address a and options o (any image sizes,
+   any diagnostics buffer) that does not panic and respects the FdlApplication contract projected to one
+   peripheral (`contract_p`: a reply or a time-out only while a request is outstanding, at most one per
+   request).  Wire trace events: WReq h pdu (request), WReply t ev (reply delivered, event it raised),
+   WTimeout, WIdle (transmit_telegram had nothing to send), WEvent ev (it raised an event instead), WUser.
+   "Accepted reply" is the standard's view DpOracle.reply_accepted (Slave_Diag: data from SSAP 60 to DSAP 62
+   with >= 6 bytes; Set_Prm / Chk_Cfg: SC; Data_Exchange: any response or SC); receive_facts (DpHistory.v)
+   proves that the code accepts exactly those.
+   All theorems: every max_retry_limit >= 1 (the builder admits 1..15), every address, all option values.
+   Two requests are CONSECUTIVE when the events between them (`mid`) contain no request and no Offline event
+   (`quiet mid`). *)
+From PB Require Import DpOracle DpHistory C08Proofs.
+
+(* The first request after start-up or after an Offline event ("first" made explicit: every earlier request
+   of the trace was followed by an Offline event) is a Slave_Diag request (DSAP 60 from SSAP 62, SRD low, no
+   payload) with FCV=0/FCB=1: function code byte 0x6C.
+   After fix F18 the frame count bit is ALSO First again on every probe that follows an unanswered probe of a
+   peripheral that is not live: see C08_offline_then_probes; such a probe is a retransmission in the sense of
+   C08_same_bit_only_retransmission (same service, same destination, no acceptable reply in between). *)
+Theorem C08_first : forall pa a o tr,
+  1 <= p_max_retry pa -> history pa a o tr ->
+  forall pre h pdu post,
+  tr = pre ++ WReq h pdu :: post ->
+  (forall pre1 h1 pdu1 post1, pre = pre1 ++ WReq h1 pdu1 :: post1 -> In (WEvent EvOffline) post1) ->
+  h = mkHeader a (p_address pa) (Some 60) (Some 62) (FcRequest FcbFirst RqSrdLow) /\ pdu = [] /\
+  fc_to_byte (h_fc h) = 108.
+Proof. exact first_request. Qed.
+Print Assumptions C08_first.
+
+(* Two consecutive requests carry the same frame count bit only if the second is a retransmission: no
+   acceptable reply arrived in between, same service, same destination -- and then even the same function
+   code byte, except that a probe of a peripheral that is not live may carry FCV=0/FCB=1 again (F18). *)
+Theorem C08_same_bit_only_retransmission : forall pa a o tr,
+  1 <= p_max_retry pa -> history pa a o tr ->
+  forall pre h1 pdu1 mid h2 pdu2 post,
+  tr = pre ++ WReq h1 pdu1 :: mid ++ WReq h2 pdu2 :: post ->
+  (forall e, In e mid -> is_req e = false /\ is_offline e = false) ->
+  forall f1 rq1 f2 rq2,
+  h_fc h1 = FcRequest f1 rq1 -> h_fc h2 = FcRequest f2 rq2 ->
+  fcbit_fcb f1 = fcbit_fcb f2 ->
+  existsb (fun e => match e with WReply t _ => reply_accepted (classify h1) t | _ => false end) mid = false /\
+  classify h2 = classify h1 /\ h_da h2 = h_da h1 /\
+  (h_fc h2 = h_fc h1 \/ (f2 = FcbFirst /\ classify h2 = SvDiag)).
+Proof. exact same_bit_only_retransmission. Qed.
+Print Assumptions C08_same_bit_only_retransmission.
+
+(* Every request that follows an accepted reply (to the previous request) toggles the bit with FCV=1. *)
+Theorem C08_toggle_history : forall pa a o tr,
+  1 <= p_max_retry pa -> history pa a o tr ->
+  forall pre h1 pdu1 mid h2 pdu2 post,
+  tr = pre ++ WReq h1 pdu1 :: mid ++ WReq h2 pdu2 :: post ->
+  (forall e, In e mid -> is_req e = false /\ is_offline e = false) ->
+  existsb (fun e => match e with WReply t _ => reply_accepted (classify h1) t | _ => false end) mid = true ->
+  exists f1 rq1 f2 rq2, h_fc h1 = FcRequest f1 rq1 /\ h_fc h2 = FcRequest f2 rq2 /\
+    fcbit_fcv f2 = true /\ fcbit_fcb f2 = negb (fcbit_fcb f1).
+Proof. exact toggle_history. Qed.
+Print Assumptions C08_toggle_history.
+
+(* An unanswered request is transmitted at most 1 + max_retry_limit times: in any stretch `mid` after a
+   request in which no reply is accepted for its service and transmit_telegram neither idles nor raises an
+   event, at most max_retry further requests occur (all of them retransmissions by the theorem above). *)
+Theorem C08_retry_bound : forall pa a o tr,
+  1 <= p_max_retry pa -> history pa a o tr ->
+  forall pre h pdu mid post,
+  tr = pre ++ WReq h pdu :: mid ++ post ->
+  (forall e, In e mid ->
+     match e with
+     | WIdle | WEvent _ => False
+     | WReply t _ => reply_accepted (classify h) t = false
+     | _ => True
+     end) ->
+  1 + count_req mid <= 1 + p_max_retry pa.
+Proof. exact retry_bound. Qed.
+Print Assumptions C08_retry_bound.
+
+(* transmit_telegram raises no event but Offline, and raises it exactly when the retries have run out: the
+   trace before it ends with a request that stayed unanswered through exactly 1 + max_retry transmissions *)
+Theorem C08_offline_when_exhausted : forall pa a o tr,
+  1 <= p_max_retry pa -> history pa a o tr ->
+  forall pre ev post,
+  tr = pre ++ WEvent ev :: post ->
+  ev = EvOffline /\
+  exists pre0 h pdu mid, pre = pre0 ++ WReq h pdu :: mid /\ unanswered_seg (classify h) mid /\
+    1 + count_req mid = 1 + p_max_retry pa.
+Proof. exact offline_when_exhausted. Qed.
+Print Assumptions C08_offline_when_exhausted.
+
+(* ... and after 1 + max_retry unanswered transmissions the next turn does raise it: transmit_telegram
+   neither sends another request nor idles *)
+Theorem C08_exhausted_then_offline : forall pa a o tr,
+  1 <= p_max_retry pa -> history pa a o tr ->
+  forall pre h pdu mid e post,
+  tr = pre ++ WReq h pdu :: mid ++ e :: post ->
+  unanswered_seg (classify h) mid ->
+  1 + count_req mid = 1 + p_max_retry pa ->
+  e <> WIdle /\ (forall h2 pdu2, e <> WReq h2 pdu2).
+Proof. exact exhausted_then_offline. Qed.
+Print Assumptions C08_exhausted_then_offline.
+
+(* After the Offline event, until a diagnostics reply is accepted: exactly one Offline event (no further
+   event), and the peripheral is only probed: every request is a Slave_Diag request with FCV=0/FCB=1 (0x6C)
+   and no payload, and no probe is repeated in the turn in which it went unanswered -- the transmit_telegram
+   turn before it was idle (`turn_open mid = false`; the DP master ends the peripheral's turn of the cycle on
+   an idle turn): one probe per DP cycle. *)
+Theorem C08_offline_then_probes : forall pa a o tr,
+  1 <= p_max_retry pa -> history pa a o tr ->
+  forall pre mid e post,
+  tr = pre ++ WEvent EvOffline :: mid ++ e :: post ->
+  (forall t ev, In (WReply t ev) mid -> reply_accepted SvDiag t = false) ->
+  match e with
+  | WEvent _ => False
+  | WReq h pdu =>
+      h = mkHeader a (p_address pa) (Some 60) (Some 62) (FcRequest FcbFirst RqSrdLow) /\ pdu = [] /\
+      fc_to_byte (h_fc h) = 108 /\ turn_open mid = false
+  | _ => True
+  end.
+Proof. exact offline_then_probes. Qed.
+Print Assumptions C08_offline_then_probes.
+
+(* the engine: the invariant holds initially and EVERY call from EVERY state satisfying it preserves it and
+   emits an event the monitor accepts *)
+Theorem C08_invariant_step : forall pa a o p g c p' e,
+  1 <= p_max_retry pa ->
+  Inv pa a o p g ->
+  p_step pa p c = Ok (p', e) ->
+  contract_p (gh_out g) [e] = true ->
+  Inv pa a o p' (gstep g e) /\ ev_ok pa a o g e.
+Proof. exact step_inv. Qed.
+Print Assumptions C08_invariant_step.
+
+(* non-vacuity: a history with max_retry_limit = 1 showing every clause: first probe 0x6C, accepted reply,
+   Set_Prm with the toggled bit, time-out, retransmission with the same function code, a reply that is not
+   accepted, a user call, the Offline event after 1 + 1 transmissions, a first probe again, time-out, idle *)
+Example C08_history_example :
+  let pa := mkParams 2 B19200 100 32436 10 126 1 11 None in
+  let o := mkOpts 4660 false false 0 100 false (Some [170]) (Some [17]) in
+  let diag := TData (mkHeader 2 7 (Some 62) (Some 60) (FcResponse RsSlave StDataLow)) [0; 0; 0; 2; 18; 52] in
+  let junk := TData (mkHeader 2 7 None None (FcResponse RsSlave StOk)) [] in
+  let probe := WReq (mkHeader 7 2 (Some 60) (Some 62) (FcRequest FcbFirst RqSrdLow)) [] in
+  let prm := WReq (mkHeader 7 2 (Some 61) (Some 62) (FcRequest FcbLow RqSrdLow)) [128; 0; 0; 11; 18; 52; 0; 170] in
+  history pa 7 o
+    [probe; WReply diag (Some EvOnline); prm; WTimeout; prm; WReply junk None; WUser; WEvent EvOffline;
+     probe; WTimeout; WIdle].
+Proof.
+  exists [0], [0], 0%nat,
+    [PcTransmit OpOperate;
+     PcReply (TData (mkHeader 2 7 (Some 62) (Some 60) (FcResponse RsSlave StDataLow)) [0; 0; 0; 2; 18; 52]);
+     PcTransmit OpOperate; PcTimeout; PcTransmit OpOperate;
+     PcReply (TData (mkHeader 2 7 None None (FcResponse RsSlave StOk)) []); PcReqDiag;
+     PcTransmit OpOperate; PcTransmit OpOperate; PcTimeout; PcTransmit OpOperate].
+  eexists. split; vm_compute; reflexivity.
+Qed.
+
+(* ====================================================================================================
+   C08 (phase 3): the histories of the DP MASTER.
+
+   Proofs/DpMasterHistory.v: `d_run pa bufsize m0 cs []` runs ANY list of calls -- the FdlApplication
+   callbacks transmit_telegram / receive_reply / handle_timeout and the user calls request_diagnostics(),
+   pi_q writes, enter_state(), take_last_events() -- on the model of DpMaster (DpMaster.v) from ANY master
+   state m0 (any number of slots and peripherals, dense or sparse storage, any cycle position), returning
+   the outputs `outs` and a LOG of (slot index, wire event) pairs; `contract_m` is the FdlApplication
+   contract (C15) over calls and outputs: after a transmit_telegram that returned a request expecting a
+   reply from da, at most one of receive_reply(da, _) / handle_timeout(da) -- or nothing (token given up) --
+   before the next transmit_telegram; user calls anywhere.  (Peripherals are added before the history
+   starts.)  State and outputs of `d_step` are by definition those of the model functions. *)
+From PB Require Import DpMaster DpMasterHistory.
+
+(* Every contract-respecting master history projects, for EVERY slot, to a contract-respecting history of
+   that slot's peripheral: so all theorems above with the hypothesis `history pa a o tr` hold for
+   tr = proj k log, for every peripheral of every master history (any peripheral count). *)
+Theorem C08_master_histories_project : forall pa bufsize m0 cs m' outs log,
+  d_run pa bufsize m0 cs [] = Ok (m', outs, log) ->
+  contract_m None outs = true ->
+  (forall k p0, slot m0 k = Some p0 ->
+     exists pcs pk, p_run pa p0 pcs = Ok (pk, proj k log) /\ contract_p false (proj k log) = true /\
+                    slot m' k = Some pk) /\
+  (forall k a o i q d, slot m0 k = Some (periph_new a o i q d) -> history pa a o (proj k log)).
+Proof. exact master_projects_both. Qed.
+Print Assumptions C08_master_histories_project.
+
+(* the log-keeping copy of the slot loop computes exactly what the model's dp_tx_loop computes *)
+Theorem C08_master_log_is_model : forall fuel pa bufsize m pev log,
+  erase3 (tx_loop_log fuel pa bufsize m pev log) = dp_tx_loop fuel pa bufsize m pev.
+Proof. exact tx_loop_log_erase. Qed.
+Print Assumptions C08_master_log_is_model.
+
+(* and the log is faithful to what is observable: one transmit_telegram call appends only transmit outcomes;
+   if it returns bytes and expects a reply from da, the last new entry is a request whose encoding is exactly
+   these bytes and whose destination is da, and no other request is logged; otherwise no request is logged;
+   every logged event is the peripheral event left for take_last_events(), with that slot's handle *)
+Theorem C08_master_log_faithful : forall pa bufsize m now hp log m' o log',
+  d_step pa bufsize m (DcTransmit now hp) log = Ok (m', DoTx o, log') ->
+  exists new, log' = log ++ new /\
+    (forall x, In x new -> match snd x with WReq _ _ | WIdle | WEvent _ => True | _ => False end) /\
+    match o with
+    | Some (w, Some da) =>
+        exists pre k h pdu, new = pre ++ [(k, WReq h pdu)] /\ existsb log_is_req pre = false /\
+          encode_data_in bufsize h pdu = Ok w /\ da = h_da h
+    | _ => existsb log_is_req new = false
+    end /\
+    (forall k ev, In (k, WEvent ev) new ->
+       exists hd, ev_peripheral (dm_events m') = Some (hd, ev) /\ hd_index hd = k).
+Proof. exact transmit_log_link. Qed.
+Print Assumptions C08_master_log_faithful.
+
+(* the first clause, spelled out at the master level *)
+Theorem C08_first_master : forall pa bufsize m0 cs m' outs log,
+  1 <= p_max_retry pa ->
+  d_run pa bufsize m0 cs [] = Ok (m', outs, log) ->
+  contract_m None outs = true ->
+  forall k a o i q d, slot m0 k = Some (periph_new a o i q d) ->
+  forall pre h pdu post,
+  proj k log = pre ++ WReq h pdu :: post ->
+  (forall pre1 h1 pdu1 post1, pre = pre1 ++ WReq h1 pdu1 :: post1 -> In (WEvent EvOffline) post1) ->
+  h = mkHeader a (p_address pa) (Some 60) (Some 62) (FcRequest FcbFirst RqSrdLow) /\ pdu = [] /\
+  fc_to_byte (h_fc h) = 108.
+Proof. exact first_request_master. Qed.
+Print Assumptions C08_first_master.
+
+(* non-vacuity: a master with two peripherals (7 answers, 9 is silent), max_retry_limit = 1: the projections
+   of the log *)
+Example C08_master_example :
+  let pa := mkParams 2 B19200 100 32436 10 126 1 11 None in
+  let o := mkOpts 4660 false false 0 100 false (Some [170]) (Some [17]) in
+  let m0 := set_slots (dp_new 2 false) [Some (periph_new 7 o [0] [0] 0); Some (periph_new 9 o [] [] 0)] in
+  let diag := TData (mkHeader 2 7 (Some 62) (Some 60) (FcResponse RsSlave StDataLow)) [0; 0; 0; 2; 18; 52] in
+  let cs := [DcEnter OpOperate; DcTransmit 0 false; DcTransmit 10 false; DcReply 7 diag; DcTake;
+             DcTransmit 20 false; DcTimeout 9; DcTransmit 30 false; DcTransmit 40 false;
+             DcReqDiag (mkHandle 0 7); DcTimeout 7; DcTransmit 50 false] in
+  let prm := WReq (mkHeader 7 2 (Some 61) (Some 62) (FcRequest FcbLow RqSrdLow)) [128; 0; 0; 11; 18; 52; 0; 170] in
+  exists m' outs log,
+    d_run pa 256 m0 cs [] = Ok (m', outs, log) /\ contract_m None outs = true /\
+    proj 0 log = [WReq (mkHeader 7 2 (Some 60) (Some 62) (FcRequest FcbFirst RqSrdLow)) [];
+                  WReply diag (Some EvOnline); prm; WUser; WTimeout; prm] /\
+    proj 1 log = [WReq (mkHeader 9 2 (Some 60) (Some 62) (FcRequest FcbFirst RqSrdLow)) []; WTimeout; WIdle].
+Proof. do 3 eexists. split; [vm_compute; reflexivity|]. split; vm_compute; auto. Qed.
+
+(* The wire monitor itself, as ONE predicate: monitor state `ghost_of pre` (a fold over the events so far:
+   last request since start / Offline, "answered by an accepted reply", number of unanswered transmissions,
+   bring-up phase) and the per-event acceptance condition `ev_ok` (DpHistory.v: req_ok for requests -- first /
+   toggle / retransmission / probe / retry-bound clauses --, "Offline only when live and after exactly
+   1+max_retry transmissions" for events, "not exhausted" for idle turns).  It accepts every event of every
+   history; the theorems above are readings of this one. *)
+Theorem C08_wire_monitor_accepts : forall pa a o tr,
+  1 <= p_max_retry pa ->
+  history pa a o tr ->
+  forall pre e post, tr = pre ++ e :: post -> ev_ok pa a o (ghost_of pre) e.
+Proof. exact history_new. Qed.
+Print Assumptions C08_wire_monitor_accepts.
